@@ -34,14 +34,14 @@ type stub struct {
 	dl, ul     int
 }
 
-func (p *stub) Choke()              { p.s.msgs = append(p.s.msgs, msg{p.id, "choke"}); p.choking = true }
-func (p *stub) Unchoke()            { p.s.msgs = append(p.s.msgs, msg{p.id, "unchoke"}); p.choking = false }
-func (p *stub) Choking() bool       { return p.choking }
-func (p *stub) Interested() bool    { return p.interested }
+func (p *stub) Choke()               { p.s.msgs = append(p.s.msgs, msg{p.id, "choke"}); p.choking = true }
+func (p *stub) Unchoke()             { p.s.msgs = append(p.s.msgs, msg{p.id, "unchoke"}); p.choking = false }
+func (p *stub) Choking() bool        { return p.choking }
+func (p *stub) Interested() bool     { return p.interested }
 func (p *stub) SetOptimistic(v bool) { p.optimistic = v }
-func (p *stub) Optimistic() bool    { return p.optimistic }
-func (p *stub) DownloadSpeed() int  { return p.dl }
-func (p *stub) UploadSpeed() int    { return p.ul }
+func (p *stub) Optimistic() bool     { return p.optimistic }
+func (p *stub) DownloadSpeed() int   { return p.dl }
+func (p *stub) UploadSpeed() int     { return p.ul }
 
 type sim struct {
 	rng     *rand.Rand
